@@ -362,7 +362,7 @@ func (w *beWrap) readCommon(ctx context.Context, key []byte, do func() (interfac
 		v, err = do()
 	}
 
-	rec.val, rec.err = v, err
+	rec.val, rec.err = unbox(v), err
 	rec.expired = err != nil && errors.Is(err, cache.ErrExpired)
 
 	w.s.log.mu.Lock()
@@ -386,7 +386,7 @@ func (w *beWrap) writeCommon(ctx context.Context, key []byte, v interface{}, do 
 		msg.fault = f
 	}
 
-	rec := &beRec{op: "write", key: string(key), task: w.s.taskName(ctx), step: w.s.step, at: time.Now(), ttl: cache.TTL(ctx), skip: cache.SkipRead(ctx), val: v}
+	rec := &beRec{op: "write", key: string(key), task: w.s.taskName(ctx), step: w.s.step, at: time.Now(), ttl: cache.TTL(ctx), skip: cache.SkipRead(ctx), val: unbox(v)}
 
 	if msg.fault != nil {
 		rec.fault = true
@@ -399,7 +399,7 @@ func (w *beWrap) writeCommon(ctx context.Context, key []byte, v interface{}, do 
 	w.s.log.be = append(w.s.log.be, rec)
 
 	if rec.err == nil {
-		w.s.log.noteStored(string(key), v)
+		w.s.log.noteStored(string(key), unbox(v))
 	}
 	w.s.log.mu.Unlock()
 
@@ -502,17 +502,46 @@ type frontend interface {
 	Close()
 }
 
-type foPlain struct{ f *cache.Failover }
+// boxedVal is what the interface{} frontends cache when foCfg.boxVals is set: the token inside a
+// slice, a dynamic type that cannot be compared with == (values are opaque to a cache).
+type boxedVal []string
+
+func box(v interface{}) interface{} {
+	if s, ok := v.(string); ok {
+		return boxedVal{s}
+	}
+
+	return v
+}
+
+func unbox(v interface{}) interface{} {
+	if b, ok := v.(boxedVal); ok && len(b) == 1 {
+		return b[0]
+	}
+
+	return v
+}
+
+type foPlain struct {
+	f   *cache.Failover
+	box bool
+}
 
 func (p foPlain) Get(ctx context.Context, key []byte, build func(ctx context.Context) (string, error)) (interface{}, error) {
-	return p.f.Get(ctx, key, func(ctx context.Context) (interface{}, error) {
+	v, err := p.f.Get(ctx, key, func(ctx context.Context) (interface{}, error) {
 		v, err := build(ctx)
 		if err != nil {
 			return nil, err
 		}
 
+		if p.box {
+			return box(v), nil
+		}
+
 		return v, nil
 	})
+
+	return unbox(v), err
 }
 func (p foPlain) KeyLocks() int   { return p.f.VerifKeyLocks() }
 func (p foPlain) HasErrors() bool { return p.f.Errors != nil }
@@ -573,17 +602,26 @@ func (p foOf) FailureCached(key []byte) (error, bool) {
 }
 func (p foOf) Close() { p.f.VerifClose() }
 
-type foOfAny struct{ f *cache.FailoverOf[any] }
+type foOfAny struct {
+	f   *cache.FailoverOf[any]
+	box bool
+}
 
 func (p foOfAny) Get(ctx context.Context, key []byte, build func(ctx context.Context) (string, error)) (interface{}, error) {
-	return p.f.Get(ctx, key, func(ctx context.Context) (any, error) {
+	v, err := p.f.Get(ctx, key, func(ctx context.Context) (any, error) {
 		v, err := build(ctx)
 		if err != nil {
 			return nil, err
 		}
 
+		if p.box {
+			return box(v), nil
+		}
+
 		return v, nil
 	})
+
+	return unbox(v), err
 }
 func (p foOfAny) KeyLocks() int   { return p.f.VerifKeyLocks() }
 func (p foOfAny) HasErrors() bool { return p.f.Errors != nil }
@@ -622,6 +660,7 @@ type foCfg struct {
 	logger          int // 0 nil, 1 error-only, 2 full
 	stats           bool
 	observeMut      bool
+	boxVals         bool // interface{} frontends cache the tokens inside a slice (uncomparable dynamic type)
 	backendTTL      time.Duration
 }
 
@@ -688,8 +727,42 @@ func newWorld(c *Case, cfg foCfg) *world {
 		DeleteExpiredJobInterval: farFuture, DeleteExpiredAfter: farFuture, ItemsCountReportInterval: farFuture,
 	})
 
+	if cfg.boxVals && cfg.variant != 2 {
+		w.be = boxBE{w.be}
+		c.Class("values=boxed-in-slice")
+	} else {
+		w.cfg.boxVals = false
+	}
+
 	return w
 }
+
+// boxBE is the harness' own view of a backend holding boxed values: it boxes what it writes and
+// unboxes what it reads, so that oracles keep talking about tokens.
+type boxBE struct{ Backend }
+
+func (b boxBE) Read(ctx context.Context, key []byte) readResult {
+	r := b.Backend.Read(ctx, key)
+	r.Val, r.ExpVal = unbox(r.Val), unbox(r.ExpVal)
+
+	return r
+}
+
+func (b boxBE) Write(ctx context.Context, key []byte, val interface{}) error {
+	return b.Backend.Write(ctx, key, box(val))
+}
+
+func (b boxBE) Walk(fn func(key []byte, val interface{}, exp time.Time) error) (int, error) {
+	return b.Backend.Walk(func(key []byte, val interface{}, exp time.Time) error { return fn(key, unbox(val), exp) })
+}
+
+func (b boxBE) Load(key []byte) (interface{}, bool) {
+	v, ok := b.Backend.Load(key)
+
+	return unbox(v), ok
+}
+
+func (b boxBE) Store(key []byte, val interface{}) { b.Backend.Store(key, box(val)) }
 
 // attach creates the frontend. It is separate from newWorld so that the (possibly long) clock
 // advance preparing stale entries happens before the failure cache's one-minute janitor exists.
@@ -720,7 +793,7 @@ func (w *world) attach() {
 			FailedUpdateTTL: cfg.failedUpdateTTL, UpdateTTL: cfg.updateTTL, SyncUpdate: cfg.syncUpdate, SyncRead: cfg.syncRead,
 			MaxStaleness: cfg.maxStaleness, FailHard: cfg.failHard, Logger: logger, Stats: stats, ObserveMutability: cfg.observeMut,
 		}.Use)
-		w.fe = foOfAny{f}
+		w.fe = foOfAny{f, cfg.boxVals}
 	} else if cfg.variant == 2 {
 		real := w.be.Raw().(*cache.ShardedMapOf[string])
 		f := cache.NewFailoverOf[string](cache.FailoverConfigOf[string]{
@@ -736,7 +809,7 @@ func (w *world) attach() {
 			FailedUpdateTTL: cfg.failedUpdateTTL, UpdateTTL: cfg.updateTTL, SyncUpdate: cfg.syncUpdate, SyncRead: cfg.syncRead,
 			MaxStaleness: cfg.maxStaleness, FailHard: cfg.failHard, Logger: logger, Stats: stats, ObserveMutability: cfg.observeMut,
 		}.Use)
-		w.fe = foPlain{f}
+		w.fe = foPlain{f, cfg.boxVals}
 	}
 
 	c.OnClose(1, w.fe.Close)
